@@ -43,7 +43,7 @@ claim("C02", "E1",
       "effects of every job (R1, R2'), a forced order between every reader and every writer of every context slot including backend reads of the "
       "frontend context that the runtime ACL never checks (R2, R5, R6), the dynamic-job guard against the 647/655/1436 bug class (R3), "
       "Unknown/rewrite pairing (R4), counter-before-send in the worker closure in both build configurations (R7), main-thread reads (R8), and "
-      "must-set vs panicking get() (R9), and the scheduler's rewrite of a backend glyph job's read access enumerating every source of the glyph, not one instance (R15; seeded). Tests see one interleaving per run; the scheduler is declarative, so whether the declarations force an "
+      "must-set vs panicking get() (R9), and the scheduler's rewrite of a backend glyph job's read access enumerating every source of the glyph, not one instance (R15; seeded), and the audited write functions of the glyph-order job behind the one instance-level exception (a write of the glyph map from any other function is an R2 violation; seeded). Tests see one interleaving per run; the scheduler is declarative, so whether the declarations force an "
       "order is visible in the code for every schedule. This is not a proof of the behaviour: instance-level ordering inside multi-instance "
       "variants is covered by audited exceptions with re-checked witnesses, and counter arithmetic ('completed twice') is not decided.",
       "Trusted: rustc nightly MIR/trait resolution, the fact extractor and python rules, scheduler semantics of can_run/is_dep_fulfilled taken as axioms, "
@@ -81,7 +81,7 @@ claim("C14", "E5",
 
 claim("C20", "E5",
       "static analysis: call-graph dominator (single pipeline) over the resolved whole-program call graph; constant-key data-flow rules over MIR for the source loaders (which lib keys are looked up on which dictionary)",
-      "Static decision of six structural clauses of C20: (L9) inside the read_dir loop of the .glyphspackage loader a branch depends only on the audited conditions (extension is `glyph`; an empty glyphname is an error) - glyphs are identified by the glyphname inside each file, so a file-name filter drops a glyph the single .glyphs file has (seeded); (Q1) the CLI entry point and the library entry point reach scheduler and context construction through one common "
+      "Static decision of seven structural clauses of C20: (L10) on the route that loads a Glyphs source from a path only the audited loaders touch the file system - a sibling file consulted beside the source is invisible to the in-memory route (seeded); (L9) inside the read_dir loop of the .glyphspackage loader a branch depends only on the audited conditions (extension is `glyph`; an empty glyphname is an error) - glyphs are identified by the glyphname inside each file, so a file-name filter drops a glyph the single .glyphs file has (seeded); (Q1) the CLI entry point and the library entry point reach scheduler and context construction through one common "
       "function (a call-graph dominator of Workload::new, Workload::exec and both Context::new_root), and nothing else constructs them; (L2) the .glyphspackage "
       "loader does not consult custom parameters the single-file loader does not; (L4) `public.*` UFO lib keys are looked up on the designspace lib only for the "
       "documented key, because that lib holds the default master's public keys only for a lone UFO - any other key would make a lone UFO and a designspace "
@@ -100,7 +100,7 @@ claim("C15", "E4+E3",
       "termination/stack argument, and for recursion whose depth follows the input (plist nesting, component graph, include graph) the guard that "
       "bounds it is re-checked structurally on every run (this census found the component-cycle and plist-nesting stack overflows, both repaired); "
       "unsafe blocks are the audited six; no tracked error is dropped; (X8) no input is read or parsed on the main thread after source construction; "
-      "(X9) threads/rayon scopes are created only inside the scheduler; (X10) every loop that is not driven by a std iterator (80 of 655 in the "
+      "(X6 also: inside IncludeGraph::validate the popped file is pushed back on the chain of open files before the scan that detects a cycle; seeded: a non-root self-include overflowed the stack) (X9) threads/rayon scopes are created only inside the scheduler; (X10) every loop that is not driven by a std iterator (80 of 655 in the "
       "compile path outside the feature-file parser, whose loops are proved by C13/G1) is listed with the reason it terminates and a re-checked "
       "class (index arithmetic / shrinking call / cursor API / generated plist reader): a new `while`/`loop` that follows references from the "
       "input is a violation until audited; (X11) a wide integer parsed from the input (u32/u64/usize `str::parse`, `from_str_radix`) never sizes a loop or an allocation "
@@ -152,7 +152,7 @@ claim("C01", "E2+E1",
 
 claim("C18", "E2+E5",
       "static analysis: the C01 hash-order taint analysis restricted to the name flow (name-id allocation, name table assembly, fvar/STAT references, fea-rs name handling); forward data-flow from the name-id minting calls to output-table fields compared with the fields the remap function writes (sibling agreement); path enumeration over the CFG of the NameId lookup predicates against the allocator's reserved-id constants",
-      "Static decision of SIX clauses of C18 (plus T10 inside the T4/T5 clause: the ids cvParameters addresses as first+i come from the allocator T5 verifies; seeded): (T8) a non-empty record - inside StaticMetadata::new every registration of a NamedInstance field as a name record is preceded by an emptiness test of that field (found: stylename=\"\" produced an empty record that fvar referred to; repaired); (T7) ids below 256 only where the specification allows - every accepting path of the backend's NameId lookup predicates (fvar, STAT) establishes id >= 256 or id in the reserved set the allocator and the fvar specification agree on (2, 17), and only the default instance may ask for a reserved id (found: subfamilyNameID 1 for a default instance named like the family; repaired); (N5) every name record derived from the source reaches the merge with the feature file's records, which replaces one only on an equal "
+      "Static decision of SEVEN clauses of C18 - (T12) the allocator of font-specific name ids starts from the maximum over all source name records (map keyed by NameKey), never from a map re-keyed by string (seeded) - (plus T10 inside the T4/T5 clause: the ids cvParameters addresses as first+i come from the allocator T5 verifies; seeded): (T8) a non-empty record - inside StaticMetadata::new every registration of a NamedInstance field as a name record is preceded by an emptiness test of that field (found: stylename=\"\" produced an empty record that fvar referred to; repaired); (T7) ids below 256 only where the specification allows - every accepting path of the backend's NameId lookup predicates (fvar, STAT) establishes id >= 256 or id in the reserved set the allocator and the fvar specification agree on (2, 17), and only the default instance may ask for a reserved id (found: subfamilyNameID 1 for a default instance named like the family; repaired); (N5) every name record derived from the source reaches the merge with the feature file's records, which replaces one only on an equal "
       "platform/encoding/language/name-id key (seeded); (T5) the feature-code name-id allocator is advanced on every path of the function that hands an id out "
       "(found: a group of empty names left it untouched and the next group got the same id; repaired); (H) the name table and the name ids other tables refer to do not depend on anything but the source, i.e. "
       "not on per-process hash iteration order; (T4) every output-table field that receives a name id minted by the feature compiler (featureNames, "
